@@ -49,6 +49,7 @@ theorem isDerived_complex (q : Quirks) (h : Hier) (wo : WellOrdered h) (co : Com
     (hU : h[u]? = some U) (hUa : U.anyType = false) :
     ∀ (n t : Nat), t ≤ n → ∀ (fuel : Nat), t < fuel → ∀ (T : TDef), h[t]? = some T → t ≠ u →
       ∀ d, ∃ r, isDerived q fuel h t u d = some r ∧ (r = true ↔ DerivedSpec h t u d) := by
+  have hUu : U.isUnion = false := (co U (List.mem_of_getElem? hU)).2.2
   intro n
   induction n with
   | zero =>
@@ -63,7 +64,7 @@ theorem isDerived_complex (q : Quirks) (h : Hier) (wo : WellOrdered h) (co : Com
       | some b => have := wo _ _ hT _ hb; omega
     have hne' : (0 == u) = false := by simpa using hne
     refine ⟨false, ?_, ?_⟩
-    · simp [isDerived, hT, hU, hc.1, hc.2, hne', hUa, hbn]
+    · simp [isDerived, hT, hU, hc.1, hc.2, hne', hUa, hUu, hbn]
     · simp only [Bool.false_eq_true, false_iff]
       cases d with
       | none =>
@@ -84,7 +85,7 @@ theorem isDerived_complex (q : Quirks) (h : Hier) (wo : WellOrdered h) (co : Com
     cases hb : T.base with
     | none =>
       refine ⟨false, ?_, ?_⟩
-      · simp [isDerived, hT, hU, hc.1, hc.2, hne', hUa, hb]
+      · simp [isDerived, hT, hU, hc.1, hc.2, hne', hUa, hUu, hb]
       · simp only [Bool.false_eq_true, false_iff]
         cases d with
         | none =>
@@ -113,7 +114,7 @@ theorem isDerived_complex (q : Quirks) (h : Hier) (wo : WellOrdered h) (co : Com
       by_cases hbu : b = u
       · subst hbu
         refine ⟨(clearC d T.deriv).isNone, ?_, ?_⟩
-        · simp [isDerived, hT, hU, hc.1, hne', hUa, hb]
+        · simp [isDerived, hT, hU, hc.1, hne', hUa, hUu, hb]
         · have hbl : b < h.length := by
             have := List.getElem?_eq_some_iff.mp hU; exact this.1
           cases d with
@@ -142,7 +143,7 @@ theorem isDerived_complex (q : Quirks) (h : Hier) (wo : WellOrdered h) (co : Com
           exact ⟨h[b]'(by omega), List.getElem?_eq_getElem (by omega)⟩
         obtain ⟨r, hr1, hr2⟩ := ih b (by omega) fuel (by omega) B hB hbu (clearC d T.deriv)
         refine ⟨r, ?_, ?_⟩
-        · simp only [isDerived, hT, hU, hc.1, hc.2, hne', hUa, hb, if_true]
+        · simp only [isDerived, hT, hU, hc.1, hc.2, hne', hUa, hUu, hb, if_true]
           simp only [hb] at hbu'
           simp [hbu', hr1]
         · rw [hr2]
@@ -301,6 +302,13 @@ theorem chain_valid {h : Hier} {t u ms} (c : Chain h t u ms) : ∃ T, h[t]? = so
   | refl _ hl => exact ⟨_, List.getElem?_eq_getElem hl⟩
   | step hT _ _ => exact ⟨_, hT⟩
 
+theorem instType_complex (q : Quirks) (h : Hier) (fuel t d : Nat) (D : TDef) (hD : h[d]? = some D)
+    (hc : D.complex = true) : instType q fuel h t d = isDerived q fuel h t d none := by
+  unfold instType
+  cases hr : isDerived q fuel h t d none with
+  | none => rfl
+  | some r => cases r <;> simp [hD, hc]
+
 /-- **C07, xsi:type.**  The xsi:type step reports no error and hands type `g` to the rest of the
     validation exactly when `Governs` holds. -/
 theorem xsi_checks_iff (q : Quirks) (h : Hier) (wo : WellOrdered h) (co : ComplexOnly h) (e : EDecl) (D : TDef)
@@ -312,7 +320,7 @@ theorem xsi_checks_iff (q : Quirks) (h : Hier) (wo : WellOrdered h) (co : Comple
   | absent => simp [eq_comm]
   | unknown => simp
   | named t =>
-    simp only
+    simp only [instType_complex q h fuel t e.ty D hD (co D (List.mem_of_getElem? hD)).1]
     cases hT : h[t]? with
     | none =>
       have hnone : isDerived q fuel h t e.ty none = none := by
@@ -602,15 +610,15 @@ theorem subst_accept_iff (q : Quirks) (h : Hier) (wo : WellOrdered h) (co : Comp
     simple variant answers `False` at the first step whose method differs from the requested one
     (simple_types.py:413-417), so `block="extension"` can never block a simple type. -/
 theorem simple_not_derived_by_extension (q : Quirks) (h : Hier) (t u : Nat) (T U : TDef) (hT : h[t]? = some T)
-    (hU : h[u]? = some U) (hs : T.complex = false) (hd : T.deriv = some .restr) (fuel : Nat) :
+    (hU : h[u]? = some U) (hs : T.complex = false) (hl : T.isList = false) (hd : T.deriv = some .restr) (fuel : Nat) :
     isDerived q (fuel + 1) h t u (some .ext) = some false := by
-  simp [isDerived, hT, hU, hs, clearS, hd]
+  simp [isDerived, hT, hU, hs, hl, clearS, hd]
 
 /-- For a simple restriction, asking for `restriction` is the same as asking for plain derivation. -/
 theorem simple_restr_eq_plain (q : Quirks) (h : Hier) (t u : Nat) (T U : TDef) (hT : h[t]? = some T)
-    (hU : h[u]? = some U) (hs : T.complex = false) (hd : T.deriv = some .restr) (fuel : Nat) :
+    (hU : h[u]? = some U) (hs : T.complex = false) (hl : T.isList = false) (hd : T.deriv = some .restr) (fuel : Nat) :
     isDerived q (fuel + 1) h t u (some .restr) = isDerived q (fuel + 1) h t u none := by
-  simp [isDerived, hT, hU, hs, clearS, hd]
+  simp [isDerived, hT, hU, hs, hl, clearS, hd]
 
 /-! ## Non-vacuity -/
 namespace Demo
